@@ -22,4 +22,5 @@ def run(ctx, rep):
     builtins.rule_number_text_pitfalls(ctx, rep, "C18-R4")
     textparse.rule_ascii_digit_scanners(ctx, rep, "C18-R5", modules=("context", "values"))
     builtins.rule_integral_double_printing(ctx, rep, "C18-R6")
+    textparse.rule_script_whitespace(ctx, rep, "C18-R7", only=lambda q: _in_family(q) or q.startswith("values:to_number"))
     rep.undecided += ["the method result tables over the argument grid (values, not shape): a runtime differential, outside static analysis"]
